@@ -244,6 +244,19 @@ func (c *Connect) EncodeTo(w io.Writer) (int, error) {
 
 	// Calculate the max length
 	head, buf := array.Split(maxHeaderSize)
+	length := 2 + len(c.ProtoName) + 1 + 1 + 2 + 2 + len(c.ClientID)
+	if c.WillFlag {
+		length += 2 + len(c.WillTopic) + 2 + len(c.WillMessage)
+	}
+	if c.UsernameFlag {
+		length += 2 + len(c.Username)
+	}
+	if c.PasswordFlag {
+		length += 2 + len(c.Password)
+	}
+	if length > MaxMessageSize {
+		return 0, ErrMessageTooLarge
+	}
 
 	// pack the proto name and version
 	offset := writeString(buf, c.ProtoName)
@@ -452,6 +465,14 @@ func (s *Subscribe) EncodeTo(w io.Writer) (int, error) {
 	defer buffers.Put(array)
 
 	head, buf := array.Split(maxHeaderSize)
+	length := 2
+	for _, t := range s.Subscriptions {
+		length += 2 + len(t.Topic) + 1
+	}
+	if length > MaxMessageSize {
+		return 0, ErrMessageTooLarge
+	}
+
 	offset := writeUint16(buf, s.MessageID)
 	for _, t := range s.Subscriptions {
 		offset += writeString(buf[offset:], t.Topic)
@@ -479,6 +500,10 @@ func (s *Suback) EncodeTo(w io.Writer) (int, error) {
 	defer buffers.Put(array)
 
 	head, buf := array.Split(maxHeaderSize)
+	if 2+len(s.Qos) > MaxMessageSize {
+		return 0, ErrMessageTooLarge
+	}
+
 	offset := writeUint16(buf, s.MessageID)
 	for _, q := range s.Qos {
 		offset += writeUint8(buf[offset:], byte(q))
@@ -505,6 +530,14 @@ func (u *Unsubscribe) EncodeTo(w io.Writer) (int, error) {
 	defer buffers.Put(array)
 
 	head, buf := array.Split(maxHeaderSize)
+	length := 2
+	for _, toptup := range u.Topics {
+		length += 2 + len(toptup.Topic)
+	}
+	if length > MaxMessageSize {
+		return 0, ErrMessageTooLarge
+	}
+
 	offset := writeUint16(buf, u.MessageID)
 	for _, toptup := range u.Topics {
 		offset += writeString(buf[offset:], toptup.Topic)
